@@ -1,5 +1,8 @@
 """C02 — kinetic-energy integrals exact.  Correspondence: KineticEnergyIntegral.construct_array_contraction and
-kinetic_energy_integral of /repo vs the exact Coq model (runner commands 6, 7)."""
+kinetic_energy_integral of /repo vs the exact Coq model (runner commands 6, 7).
+Stream "hp": KineticEnergyIntegral.construct_array_contraction (norm_prim_cart, the differential-operator and moment
+recursions, the contraction) replayed in 260-bit arithmetic on object arrays and compared with command 6 at
+1e-18 x sum|primitive terms| (harness/hpnum.py): a difference there is a difference of FORMULA, not of rounding."""
 import numpy as np
 
 import twoindex
@@ -7,7 +10,9 @@ from lib import run_cases
 
 RULE = ("block level: every (l_a, l_b) in 0..5 x 0..5 enumerated, K 1-4, M 1-3, exponents over the published range; "
         "basis level: 1-4 shells, cart/sph/mixed, with/without rectangular transform; tolerance 1e-8*sqrt(T_aa T_bb) "
-        "with T_aa from the exact model; non-trivial: block not identically zero and (l>0 or K>1); distinct by input hash")
+        "with T_aa from the exact model; non-trivial: block not identically zero and (l>0 or K>1); distinct by input hash; "
+        "hp stream: 6 (quick) / 60 (thorough) shell pairs l<=2 / l<=4, K,M<=2, replayed at 260 bits, tolerance 1e-18 x "
+        "sum|primitive terms|")
 RULE += " HISTORY stream (the returned value depends only on the arguments): basis-level shells carry the atom index (icenter; shells sharing a centre share it); every 2nd generated basis (quick; every 4th thorough; with a transform only bases of 1-2 shells) and every 5th same-centre pair is a GEOMETRY SCAN evaluated in one process: the same shells (exponents, coefficients, types, icenter) with the atoms displaced rigidly by k/16 bohr (one atom, or every atom by its own vector) at 1-2 further geometries, then the first geometry again; every call is compared with the exact model at its own geometry with the same tolerance (detail kind \"history\", the replay case contains the geometries; shrinking and replay evaluate every candidate sequence in a fresh process)"
 ASSUMPTIONS = ["floating-point rounding of the NumPy pipeline is not modelled: the accuracy bound is decided on the "
                "generated inputs against the exact value"]
@@ -21,6 +26,11 @@ def _impl_block(case, ga, gb):
 def _impl_int(case, gbasis, T):
     from gbasis.integrals.kinetic_energy import kinetic_energy_integral
     return kinetic_energy_integral(gbasis, transform=T)
+
+
+def _hp_block(case, ha, hb):
+    from gbasis.integrals.kinetic_energy import KineticEnergyIntegral
+    return KineticEnergyIntegral.construct_array_contraction(ha, hb)
 
 
 def _tol(model, case, res, level, *args):
@@ -46,10 +56,14 @@ KERNEL = dict(
     name="kinetic",
     block_cmd=lambda case, sa, sb: "(6 %s %s)" % (sa.sx(), sb.sx()),
     int_cmd=lambda case, basis, T: "(7 %s %s)" % (twoindex.basis_sx(basis), twoindex.t_sx(T)),
-    impl_block=_impl_block, impl_int=_impl_int, post=lambda a: a, tol=_tol)
+    impl_block=_impl_block, impl_int=_impl_int, post=lambda a: a, tol=_tol, hp_block=_hp_block)
 eval_case = twoindex.make_eval(KERNEL)
 
 
+def gen_cases(tier, seed):
+    return twoindex.hp_cases(tier, seed, salt=2) + twoindex.gen_cases(tier, seed, salt=2)
+
+
 def run(rep, tier, seed, model, replay):
-    cases = [replay["case"]] if replay is not None else twoindex.gen_cases(tier, seed, salt=2)
+    cases = [replay["case"]] if replay is not None else gen_cases(tier, seed)
     run_cases(rep, cases, eval_case, shrinkfn=twoindex.shrink_case, isolate=True)
